@@ -84,7 +84,24 @@ Proof.
            codec_roundtrip empty_is_zero compress_roundtrip compress_nonempty).
 Qed.
 Print Assumptions holder_irrelevant.
+(* Unary Connect requests (the body is the message, Content-Encoding says whether
+   it is compressed): one header map used for any list of messages — a
+   *connect.Request sent again and again, sizes on either side of
+   compress-min-bytes — every attempt's message is what the receiver decodes.
+   [unary_call] is built from the translator's fact that NewConn clears the
+   header before the marshaler decides (repaired in /repo, 97e720c). *)
+Theorem unary_request_reuse_roundtrip : forall pool min_bytes (ms : list M) labelled_before h,
+  Forall2 (fun m w => unary_unmarshal_f M unmarshal_into decompress 0 (snd w) h (fst w, CleanEOF) = inl m)
+          ms (unary_calls M marshal compress pool min_bytes labelled_before ms).
+Proof.
+  exact (unary_reuse_roundtrip_lemma M marshal unmarshal_into compress decompress
+           codec_roundtrip compress_roundtrip compress_nonempty).
+Qed.
+
 End C01.
+
+Check unary_request_reuse_roundtrip.
+Print Assumptions unary_request_reuse_roundtrip.
 Print Assumptions stream_roundtrip.
 Print Assumptions stream_roundtrip_clean_end.
 Print Assumptions stream_roundtrip_any_transport.
